@@ -140,6 +140,8 @@ class SymRecord:
         raise IndexError("invalid index to record")
 
     def __setitem__(self, k, v):
+        if self.__dict__.get("_detached"):
+            return      # numpy: a record restored from a pickle is a detached scalar; assigning its fields has no effect
         if k == () or k is Ellipsis:
             if isinstance(v, SymRecord):
                 for n in self.dtype.names:
@@ -187,6 +189,15 @@ class SymRecord:
 
     def copy(self):
         return SymRecord(self)
+
+    def reshape(self, *shape):
+        """0-d structured array -> 1-element structured array sharing the record"""
+        shape = shape[0] if len(shape) == 1 else shape
+        if shape in (1, (1,), -1, (-1,)):
+            return SymRecArray(0, self.dtype, [self])
+        if shape == ():
+            return self
+        raise ValueError(f"cannot reshape a record into shape {shape}")
 
     def tolist(self):
         out = []
